@@ -315,6 +315,14 @@ func (s *Sim) CloseChan(ch interface{}, closeIt func()) {
 	Global.Post(tok, int(KClose), ch, "harness:close", 0)
 }
 
+// SendChan lets harness code send on a channel that woven code receives from
+// (operations queued before a Processor exists) under the simulator's eyes.
+func (s *Sim) SendChan(ch interface{}, sendIt func()) {
+	tok := Global.Pre(int(KSend), ch, "harness:send")
+	sendIt()
+	Global.Post(tok, int(KSend), ch, "harness:send", 0)
+}
+
 // Go starts a further client goroutine from inside a client: the simulator
 // expects it to finish (a client that cannot is a deadlock).
 func (s *Sim) Go(name string, fn func()) {
